@@ -592,6 +592,7 @@ pub fn fam_iterate(seed: u64, tier: &str, index: u64) -> Scenario {
         br,
         max: 100000,
         stop_at: None,
+        resume: false,
     });
     let opts = g.random_opts();
     Scenario {
@@ -723,6 +724,7 @@ pub fn fam_history(seed: u64, tier: &str, index: u64) -> Scenario {
                     br,
                     max,
                     stop_at: None,
+                    resume: false,
                 });
             }
             9 => {
@@ -811,7 +813,7 @@ pub fn fam_cumulative(seed: u64, tier: &str, index: u64) -> Scenario {
         g.post(c2, false);
     }
     let br = g.random_brancher();
-    g.steps.push(Step::Iterate { br, max: 100000, stop_at: None });
+    g.steps.push(Step::Iterate { br, max: 100000, stop_at: None, resume: false });
     let mut opts = g.random_opts();
     if opts.restart_base <= 3 && opts.high_lbd_limit <= 4 {
         opts.high_lbd_limit = 4000;
@@ -950,7 +952,7 @@ pub fn fam_cumulative2(seed: u64, tier: &str, index: u64) -> Scenario {
         1 => BrSpec { kind: "indep".into(), var: 2, val: g.rng.gen_range(0..NUM_VAL_SEL) },
         _ => g.random_brancher(),
     };
-    g.steps.push(Step::Iterate { br, max: 100000, stop_at: None });
+    g.steps.push(Step::Iterate { br, max: 100000, stop_at: None, resume: false });
     let mut opts = if g.rng.gen_bool(0.5) { Opts::default() } else { g.random_opts() };
     if opts.restart_base <= 3 && opts.high_lbd_limit <= 4 {
         opts.high_lbd_limit = 4000;
@@ -1035,7 +1037,7 @@ pub fn fam_reif(seed: u64, tier: &str, index: u64) -> Scenario {
         0 => BrSpec { kind: "indep".into(), var: 2, val: g.rng.gen_range(0..NUM_VAL_SEL) }, // input order: r last
         _ => g.random_brancher(),
     };
-    g.steps.push(Step::Iterate { br, max: 100000, stop_at: None });
+    g.steps.push(Step::Iterate { br, max: 100000, stop_at: None, resume: false });
     let mut opts = g.random_opts();
     if opts.restart_base <= 3 && opts.high_lbd_limit <= 4 {
         opts.high_lbd_limit = 4000;
@@ -1122,7 +1124,7 @@ pub fn fam_reif2(seed: u64, tier: &str, index: u64) -> Scenario {
         1 => BrSpec { kind: "indep".into(), var: 2, val: g.rng.gen_range(0..NUM_VAL_SEL) },
         _ => g.random_brancher(),
     };
-    g.steps.push(Step::Iterate { br, max: 100000, stop_at: None });
+    g.steps.push(Step::Iterate { br, max: 100000, stop_at: None, resume: false });
     let opts = if g.rng.gen_bool(0.5) { Opts::default() } else { g.random_opts() };
     let mut opts = opts;
     if opts.restart_base <= 3 && opts.high_lbd_limit <= 4 {
@@ -1202,7 +1204,7 @@ pub fn fam_configs(seed: u64, tier: &str, index: u64) -> Scenario {
     }
     match task {
         0 => g.steps.push(Step::Satisfy { br, stop_at: None }),
-        1 => g.steps.push(Step::Iterate { br, max: 100000, stop_at: None }),
+        1 => g.steps.push(Step::Iterate { br, max: 100000, stop_at: None, resume: false }),
         _ => g.steps.push(Step::Optimise { br, maximise, lus: c.rng.gen_bool(0.5), obj, stop_at: None }),
     }
     Scenario { fam: "configs".into(), id: index, opts, steps: g.steps, engine: index % 4 != 3 }
@@ -1211,23 +1213,70 @@ pub fn fam_configs(seed: u64, tier: &str, index: u64) -> Scenario {
 /// Base scenario of the `interrupt` family (the driver derives the interrupted variants from it).
 pub fn fam_interrupt_base(seed: u64, tier: &str, index: u64) -> Scenario {
     let mut g = Gen::new(rng_for(seed, "interrupt", index), params(tier));
-    if g.rng.gen_bool(0.5) {
+    // the operation is index-driven: satisfy, iterate, iterate with resumption, LSU, LUS
+    let op = index % 5;
+    if op == 1 || op == 2 {
+        g.p.max_space = g.p.max_space.min(150);
+    }
+    if g.rng.gen_bool(0.5) && op != 2 {
         build_dense_model(&mut g, tier);
     } else {
         let ncons = g.rng.gen_range(1..=g.p.max_cons);
         g.build_model(ncons, false);
     }
     let br = g.random_brancher();
-    match g.rng.gen_range(0..4) {
+    match op {
         0 => g.steps.push(Step::Satisfy { br, stop_at: None }),
-        1 => g.steps.push(Step::Iterate { br, max: 4, stop_at: None }),
-        2 => {
-            let obj = g.some_int_view();
-            g.steps.push(Step::Optimise { br, maximise: g.rng.gen_bool(0.5), lus: false, obj, stop_at: None })
-        }
+        1 => g.steps.push(Step::Iterate { br, max: 4, stop_at: None, resume: false }),
+        2 => g.steps.push(Step::Iterate { br, max: 100000, stop_at: None, resume: true }),
         _ => {
-            let obj = g.some_int_view();
-            g.steps.push(Step::Optimise { br, maximise: g.rng.gen_bool(0.5), lus: true, obj, stop_at: None })
+            // an objective with a range of its own, tied to the model from one side only: both
+            // procedures then need several improvement / refutation rounds
+            let maximise = g.rng.gen_bool(0.5);
+            let style = g.rng.gen_range(0..10);
+            let obj = if style < 2 {
+                g.some_int_view()
+            } else if style < 6 {
+                // pairwise different fresh variables with equal ranges: the root bound of the
+                // objective is several steps away from the optimum
+                let n = g.rng.gen_range(2..=3);
+                let a = g.rng.gen_range(-2..=1);
+                let w = g.rng.gen_range(n as i32..=n as i32 + 1);
+                let ps: Vec<View> =
+                    (0..n).map(|_| View::var(g.add_int_var_with((a..a + w).collect(), false))).collect();
+                g.post(Cons::Alldiff { xs: ps.clone() }, false);
+                let sum_lo = n as i32 * a;
+                let k = g.rng.gen_range(0..=1);
+                let o = if maximise {
+                    g.add_int_var_with((sum_lo - 1..=n as i32 * (a + w - 1) + k).collect(), false)
+                } else {
+                    g.add_int_var_with((sum_lo - k..=n as i32 * (a + w - 1) + 1).collect(), false)
+                };
+                let neg = |v: View| View { v: v.v, s: -v.s, o: -v.o };
+                let ov = View::var(o);
+                let mut terms: Vec<View> = if maximise { vec![ov] } else { vec![neg(ov)] };
+                for p_ in ps {
+                    terms.push(if maximise { neg(p_) } else { p_ });
+                }
+                g.post(Cons::LinLe { terms, rhs: k }, false);
+                ov
+            } else {
+                let w = g.rng.gen_range(5..=9);
+                let lo = g.rng.gen_range(-4..=1);
+                let ivs = g.int_vars();
+                let x = View::var(*ivs.choose(&mut g.rng).unwrap());
+                let y = View::var(*ivs.choose(&mut g.rng).unwrap());
+                let o = g.add_int_var_with((lo..lo + w).collect(), false);
+                let k = g.rng.gen_range(-1..=3);
+                let neg = |v: View| View { v: v.v, s: -v.s, o: -v.o };
+                let ov = View::var(o);
+                // minimise: o >= x + y - k; maximise: o <= x + y + k. The bound that propagation
+                // derives for o at the root is attained only if x and y can be extreme together.
+                let terms = if maximise { vec![ov, neg(x), neg(y)] } else { vec![x, y, neg(ov)] };
+                g.post(Cons::LinLe { terms, rhs: k }, false);
+                if g.rng.gen_bool(0.3) { View { v: o, s: 2, o: 1 } } else { ov }
+            };
+            g.steps.push(Step::Optimise { br, maximise, lus: op == 4, obj, stop_at: None })
         }
     }
     let mut opts = g.random_opts();
@@ -1238,7 +1287,8 @@ pub fn fam_interrupt_base(seed: u64, tier: &str, index: u64) -> Scenario {
 }
 
 /// The interrupted variant: the last step fires at poll `k`, then the same operation is asked
-/// again without interruption.
+/// again without interruption (for an iteration with resumption the SAME iterator is asked again
+/// after it reported Unknown, and a fresh, uninterrupted iteration follows).
 pub fn interrupt_variant(base: &Scenario, k: u64, id: u64, engine: bool) -> Scenario {
     let mut s = base.clone();
     s.id = id;
@@ -1247,7 +1297,9 @@ pub fn interrupt_variant(base: &Scenario, k: u64, id: u64, engine: bool) -> Scen
     let with_stop = |st: &Step, stop: Option<u64>| -> Step {
         match st.clone() {
             Step::Satisfy { br, .. } => Step::Satisfy { br, stop_at: stop },
-            Step::Iterate { br, max, .. } => Step::Iterate { br, max, stop_at: stop },
+            Step::Iterate { br, max, resume, .. } => {
+                Step::Iterate { br, max, stop_at: stop, resume: resume && stop.is_some() }
+            }
             Step::Optimise { br, maximise, lus, obj, .. } => {
                 Step::Optimise { br, maximise, lus, obj, stop_at: stop }
             }
@@ -1294,7 +1346,7 @@ pub fn fam_clauses(seed: u64, tier: &str, index: u64) -> Scenario {
         g.post(c, false);
     }
     let br = g.random_brancher();
-    g.steps.push(Step::Iterate { br, max: 100000, stop_at: None });
+    g.steps.push(Step::Iterate { br, max: 100000, stop_at: None, resume: false });
     let mut opts = g.random_opts();
     if opts.restart_base <= 3 && opts.high_lbd_limit <= 4 {
         opts.high_lbd_limit = 4000;
@@ -1329,7 +1381,7 @@ pub fn fam_exh_clause(_seed: u64, tier: &str, index: u64) -> Scenario {
     };
     g.post(Cons::Clause { ps: vec![mk(x, p1), mk(y, p2)] }, false);
     let br = BrSpec { kind: "indep".into(), var: 2, val: valsel };
-    g.steps.push(Step::Iterate { br, max: 100000, stop_at: None });
+    g.steps.push(Step::Iterate { br, max: 100000, stop_at: None, resume: false });
     let opts = Opts { restart: "off".into(), ..Opts::default() };
     Scenario { fam: "exh_clause".into(), id: index, opts, steps: g.steps, engine: index % 7 == 0 }
 }
